@@ -128,7 +128,9 @@ func generate() {
 		"every kind at every verifier and header shape; every byte of the decoded header/payload/signature altered (quick: 4 xor masks, thorough: all 255); " +
 		"every spelling of the last signature character; all 27 segment swaps; alg x signing-key matrix; exp/iat/nbf boundary and type matrix; " +
 		"claim type matrix; refresh pairs (users, client info, expiry distance -3..3, header shapes); random tokens; malformed strings. " +
-		"non-trivial = every case (each is a distinct op line)"
+		"ChangeEmail/SetIDEmail on a private BBS (requester x target x token). " +
+		"non-trivial = a distinct op line in which a presented string is a well-formed token (three base64url segments, JSON header and payload, registered alg), " +
+		"i.e. the case reaches the server's decision logic behind the parser; empty and malformed strings are counted as trivial"
 
 	users := []string{"SYSOP", "alice", "bob"}
 	clis := []string{"", "web"}
@@ -339,6 +341,7 @@ func generate() {
 				toks = append(toks, recI("e", target, "web", "a@ptt.test", cx))
 			}
 			toks = append(toks, recI("e", req, "web", "a@ptt.test", ctxEmail()), recI("e", req, "web", "a@ptt.test", ctxIDEmail()),
+				recI("e", "mallory", "web", "a@ptt.test", ctxEmail()), recI("e", "mallory", "web", "a@ptt.test", ctxIDEmail()),
 				recI("a", target, "web"), recI("r", target, "web"), "E", recL("junk"),
 				recB("HS256", "e", claimsOf('e', target, "web", "nr-1", nil)),
 				recB("HS256", "e", claimsOf('e', target, "web", "nr100", map[string]string{"ctx": "s" + hs(ctxIDEmail())})),
